@@ -452,7 +452,7 @@ func hostileWorkload(r *mon.Run, run func(hostileCase) (consumedIfAllRejected in
 	// and on a member (accepted ones are also converted to OpenAPI)
 	{
 		vals := []string{"true", "false", `"string"`, `"integer"`, `"float"`, `"decimal"`, `"boolean"`, `"null"`, `"object"`, `"array"`, `"any"`, `"enum"`, `"mixed"`, `"email"`, `"uri"`, `"uuid"`, `"date"`, `"datetime"`,
-			`"@t"`, `"@k1"`, `"@gone"`, `"@t | @k1"`, `1`, `"strin"`, `""`, `null`, `[]`, `{}`}
+			`"@t"`, `"@k1"`, `"@gone"`, `"@t | @k1"`, `1`, `"comment"`, `"undefined"`, `"number"`, `"strin"`, `""`, `null`, `[]`, `{}`}
 		bodies := []string{"", ` "id": 1`, ` @k1: 1`, " @k1: 1.5,\n @k2: 2", " \"id\": \"x\",\n @k1: true", " @k1: @t,\n \"z\": [@t]", " @k2: {\"in\": 1},\n @k1: [1]"}
 		types := []typeDef{{Name: "@t", Text: `{"own": 1.5}`}, {Name: "@k1", Text: `"abc"`}, {Name: "@k2", Text: `"12" // {regex: "^[0-9]+$"}`}}
 		ai := 0
@@ -645,7 +645,7 @@ func init() {
 		ID:                 "C02",
 		Run:                func(r *mon.Run) { hostileRun(r, c02Judge(r)) },
 		Replay:             hostileReplay(c02Judge),
-		Rule:               "hostile inputs to every public entry point (JSchema Len/Check/Example/GetAST/UsedUserTypes/AddType/AddRule, Enum Len/Check/Values/GetAST, RSchema Check/Len/Example/GetAST/Pattern/AddType, Document Check/Len/NextLexeme in both modes, NewNumber, GuessSchemaType, OpenAPI conversion of accepted schemas), each call on fresh objects under a recover: (a) every token string up to a length bound per family (schema 34 tokens, len 3 quick / 5 thorough, with viable-prefix pruning from the H3 scanner probe; enum, regex, number, document alphabets; every number-shaped byte string over 0 1 - + . e x up to 5 / 6 hosted in an enum rule, a schema value, a rule value and a document; annotation bodies: 19 compound tokens (incl. the empty string) up to 5 / 6 inside `1 /* … */` and after `1 // `), (a3) 13 annotation tokens up to 5 / 6 with an enum rule and a type registered, (f3) an or rule (9 lists x 5 extras) on every kind of example in three placements, (b) every truncation, token deletion/duplication/substitution and CRLF/CR variant of every string literal harvested from the repository's tests, (c) random byte and token soups up to 9 KiB, (d) all 1-type (and, thorough, 2-type; sampled 2/3-type) projects of self/mutually referencing user types from 24 reference templates (incl. names that are never registered), (d') 81 x 4 projects with a check-time defect inside a member that other types inherit through allOf or reach by reference (heir named before and after the base, member behind padding lines), (d2) C07's exhaustive small allOf / additionalProperties graphs and 1.6k / 40k random ones, (d3) texts whose first or second line is 100 B .. 70 KB long with a defect on a later line under LF / CRLF / CR, (d4) layered projects of 6..64 layers with two types per layer in seven reference forms (work must not grow with the number of routes), (f2) every numeric rule with 20 magnitudes from 0 to 10^20 on a matching example, (g) 10 stray byte sequences of multi-byte characters at the last four positions and the start of 20 short texts of every kind (inputs are handed over without spare capacity behind them, so that reading beyond the text panics), (f4) 28 additionalProperties values x 7 member lists (plain, one / two key shortcuts, references) x 3 extras x 3 placements, (e) nesting ladder up to 2000 (quick) / 10000 (thorough). A violation is an escaped panic, a worker death or CPU-budget overrun that reproduces in a fresh process, or a scan using more than 2*len+8 steps. distinct_nontrivial = distinct (entry family, text) / projects (hashed).",
+		Rule:               "hostile inputs to every public entry point (JSchema Len/Check/Example/GetAST/UsedUserTypes/AddType/AddRule, Enum Len/Check/Values/GetAST, RSchema Check/Len/Example/GetAST/Pattern/AddType, Document Check/Len/NextLexeme in both modes, NewNumber, GuessSchemaType, OpenAPI conversion of accepted schemas), each call on fresh objects under a recover: (a) every token string up to a length bound per family (schema 34 tokens, len 3 quick / 5 thorough, with viable-prefix pruning from the H3 scanner probe; enum, regex, number, document alphabets; every number-shaped byte string over 0 1 - + . e x up to 5 / 6 hosted in an enum rule, a schema value, a rule value and a document; annotation bodies: 19 compound tokens (incl. the empty string) up to 5 / 6 inside `1 /* … */` and after `1 // `), (a3) 13 annotation tokens up to 5 / 6 with an enum rule and a type registered, (f3) an or rule (9 lists x 5 extras) on every kind of example in three placements, (b) every truncation, token deletion/duplication/substitution and CRLF/CR variant of every string literal harvested from the repository's tests, (c) random byte and token soups up to 9 KiB, (d) all 1-type (and, thorough, 2-type; sampled 2/3-type) projects of self/mutually referencing user types from 24 reference templates (incl. names that are never registered), (d') 81 x 4 projects with a check-time defect inside a member that other types inherit through allOf or reach by reference (heir named before and after the base, member behind padding lines), (d2) C07's exhaustive small allOf / additionalProperties graphs and 1.6k / 40k random ones, (d3) texts whose first or second line is 100 B .. 70 KB long with a defect on a later line under LF / CRLF / CR, (d4) layered projects of 6..64 layers with two types per layer in seven reference forms (work must not grow with the number of routes), (f2) every numeric rule with 20 magnitudes from 0 to 10^20 on a matching example, (g) 10 stray byte sequences of multi-byte characters at the last four positions and the start of 20 short texts of every kind (inputs are handed over without spare capacity behind them, so that reading beyond the text panics), (f4) 31 additionalProperties values x 7 member lists (plain, one / two key shortcuts, references) x 3 extras x 3 placements, (e) nesting ladder up to 2000 (quick) / 10000 (thorough). A violation is an escaped panic, a worker death or CPU-budget overrun that reproduces in a fresh process, or a scan using more than 2*len+8 steps. distinct_nontrivial = distinct (entry family, text) / projects (hashed).",
 		MinNontrivialQuick: 100000, MinNontrivialThorough: 1000000,
 		Assumptions: []string{"inputs up to 64 KiB and nesting up to 10^4 (deeper nesting costs tens of CPU-seconds per call on this tree: slow, but it returns); exponents above 10^6 are rejected by the library since the fix recorded in known_findings.jsonl", "OpenAPI conversion is only exercised for accepted schemas",
 			"a process death counts only if it reproduces on the same case in a fresh process; CPU budget 300 s per case (process CPU time, not wall clock)"},
